@@ -28,6 +28,8 @@ impl<'a> ZoneStepRunner<'a> {
         let mut outputs: Vec<Vec<CandidateZone>> = Vec::with_capacity(order.len());
         let mut pruned: Option<Vec<String>> = None;
 
+        #[cfg(sneldb_verif)]
+        crate::verif::step("read.seglist_begin", "");
         // Full segment list to use before pruning exists
         let mut full_segments: Vec<String> = self._plan.segment_ids.read().unwrap().clone();
         if let Some(tracker) = self._plan.inflight_segments() {
@@ -51,6 +53,9 @@ impl<'a> ZoneStepRunner<'a> {
                 );
             }
         }
+
+        #[cfg(sneldb_verif)]
+        crate::verif::step("read.seglist", &format!("\"segs\":{:?}", full_segments));
 
         // Decide if pruning is allowed: only when op is AND and the first planned step is context_id
         let op = LogicalOp::from_expr(self._plan.where_clause());
